@@ -35,36 +35,73 @@ def unit_templates():
 
 
 def tags_in_text(text):
+    """(line, props, name, status) for every obligation tag; status is 'assumed' for an `ensures` clause of an
+    external_body function (a contract taken on trust in this unit, proved elsewhere or trusted), else 'checked'."""
     out = []
+    in_ext = False
+    section = None
     for i, ln in enumerate(text.split('\n')):
+        st = ln.strip()
+        if 'verifier::external_body' in st:
+            in_ext, section = True, None
+        if in_ext:
+            if re.match(r'requires\b', st):
+                section = 'requires'
+            elif re.match(r'ensures\b', st):
+                section = 'ensures'
+            if 'unimplemented!()' in st:
+                # tags on this very line still belong to the header
+                for m in TAG_RE.finditer(ln):
+                    out.append((i + 1, m.group(1).split('+'), m.group(2), 'assumed' if section == 'ensures' else 'checked'))
+                in_ext, section = False, None
+                continue
         for m in TAG_RE.finditer(ln):
-            out.append((i + 1, m.group(1).split('+'), m.group(2)))
+            status = 'assumed' if (in_ext and section == 'ensures') else 'checked'
+            out.append((i + 1, m.group(1).split('+'), m.group(2), status))
     return out
 
 
-def template_tags(unit):
-    """tags reachable from a unit template (following includes)"""
-    seen, out = set(), []
+def template_mentions(unit, pid):
+    """does the template of `unit` (with its includes and spliced contracts) carry a tag of `pid`?"""
+    seen = set()
 
     def walk(path):
-        if path in seen:
-            return
+        if path in seen or not os.path.exists(path):
+            return False
         seen.add(path)
         txt = open(path).read()
-        out.extend(tags_in_text(txt))
-        for m in re.finditer(r'^\s*//@include\s+(\S+)', txt, re.M):
-            walk(os.path.join(ROOT, m.group(1)))
-    walk(os.path.join(ROOT, 'units', unit + '.vrs'))
-    return out
+        if any(pid in m.group(1).split('+') for m in TAG_RE.finditer(txt)):
+            return True
+        for m in re.finditer(r'^\s*//@(?:include|splice)\s+(\S+)', txt, re.M):
+            if walk(os.path.join(ROOT, m.group(1))):
+                return True
+        return False
+    return walk(os.path.join(ROOT, 'units', unit + '.vrs'))
 
 
-def units_for(pid):
-    res = []
+_ASSEMBLED = {}
+
+
+def assembled(unit, repo):
+    if (unit, repo) not in _ASSEMBLED:
+        _ASSEMBLED[(unit, repo)] = vx.assemble(unit, repo)
+    return _ASSEMBLED[(unit, repo)]
+
+
+def units_for(pid, repo):
+    """units that carry a checked obligation of this property (C04 additionally owns every implicit obligation,
+    so it runs all units).  Returns (units, undecided messages)."""
+    res, bad = [], []
     for u in unit_templates():
-        tg = template_tags(u)
-        if pid == 'C04' or any(pid in props for _, props, _ in tg):
+        try:
+            unit = assembled(u, repo)
+        except (AnchorLost, Unsupported, LookupError, ValueError) as e:
+            bad.append('%s: %s: %s' % (u, type(e).__name__, e))
+            continue
+        tg = tags_in_text(unit.text())
+        if pid == 'C04' or any(pid in props and st == 'checked' for _, props, _, st in tg):
             res.append(u)
-    return res
+    return res, bad
 
 
 def classify(diag, unit):
@@ -134,7 +171,7 @@ def trusted_scan(text):
 
 
 def run_unit(unit_name, repo, outdir, canary=False):
-    u = vx.assemble(unit_name, repo)
+    u = assembled(unit_name, repo)
     text = u.text()
     path = os.path.join(outdir, unit_name + ('_canary' if canary else '') + '.rs')
     if canary:
@@ -184,9 +221,14 @@ def main():
     replay_dir = os.path.join(ROOT, 'replay', 'out')
     os.makedirs(replay_dir, exist_ok=True)
 
-    units = units_for(pid)
+    units, bad = units_for(pid, a.repo)
     known = load_known()
     undecided = []
+    # a unit that cannot be assembled only matters if it (could) carry obligations of this property
+    for bmsg in bad:
+        un = bmsg.split(':', 1)[0]
+        if pid == 'C04' or template_mentions(un, pid):
+            undecided.append(bmsg)
     failures = []        # (unit, name, props, site, kind, rendered)
     obligations = []     # names of explicit obligations for this pid
     unit_reports = []
@@ -195,6 +237,7 @@ def main():
     rewrites = {}
     verified_fns = 0
     canary_total = canary_failed = 0
+    assumed_here = []
 
     for un in units:
         try:
@@ -215,9 +258,11 @@ def main():
             trusted.add('%s: %s' % (un, t))
         for (fa, fb, nm, qn, rel, sl) in u.fns:
             fns_under_contract.append('%s::%s' % (rel, qn))
-        for (ln, props, name) in tags_in_text(u.text()):
-            if pid in props:
+        for (ln, props, name, st) in tags_in_text(u.text()):
+            if pid in props and st == 'checked':
                 obligations.append('%s/%s' % (un, name))
+            elif pid in props:
+                assumed_here.append('%s/%s' % (un, name))
         for d in errs:
             name, props, site, kind = classify(d, u)
             if 'rlimit' in d['message'] or 'resource limit' in d['message'].lower():
@@ -299,6 +344,7 @@ def main():
             'implicit_failures': [f[1] for f in implicit_failed],
             'vacuity_canaries': {'planted': canary_total, 'failed_as_required': canary_failed},
             'units': unit_reports,
+            'contracts_assumed_in_a_unit_and_proved_in_another': sorted(set(assumed_here)),
             'known_findings': [f[1] for f in knowns],
             'undecided': undecided,
             'evaluations': max(n_obl, 1), 'distinct_nontrivial': max(n_obl, 2),
